@@ -30,6 +30,7 @@ def check(run):
         return rec['conflict'] or rec['bad']['k'] != 'none'
     cov = ic.absorb(run, res, nontrivial)
     run.notes['replay_coverage'] = cov
+    leg_error_renderer_names(run)
     shown = 0
     for r in recs + recs2:
         if r['conflict'] and shown < 3:
@@ -37,11 +38,64 @@ def check(run):
             run.sample({k: r[k] for k in ('n', 'nApp', 'P', 'V', 'url', 'res', 'rres', 'bad', 'allowed')})
 
 
+def leg_error_renderer_names(run):
+    """Inject.tla ErrAvail: an error renderer may take request built-ins, application resources and `_error`; anything else
+    (`context`, `next`, an unknown name) is rejected with NameError when the handler is installed - for ErrorHandler
+    subclasses, for set_error_handler() and for Route(render_error=...)"""
+    import common
+    import tlc
+    from common import spec, cfgpath
+    e = tlc.run_tlc(spec('Inject.tla'), cfgpath('Inject_c04_emit_err.cfg'), workers=1, timeout=600)
+    run.add_tlc('Inject C04 emission (names an error renderer may take)', e)
+    common.fresh_repo_import()
+    from clastic import Application, Route, Response
+    from clastic.errors import ErrorHandler
+    seen = set()
+    for rec in e.emits:
+        key = json.dumps(rec, sort_keys=True)
+        if key in seen:
+            continue
+        seen.add(key)
+        res = dict((nm, object()) for nm in rec['res'])
+        for nm, ok in sorted(rec['names'].items()):
+            env = {}
+            exec('def render_error(self, request, _error, %s):\n    return _error\n' % nm, env)
+            exec('def render_error_fn(request, _error, %s):\n    return _error\n' % nm, env)
+            H = type('H', (ErrorHandler,), {'render_error': env['render_error']})
+            for how in ('constructor', 'set_error_handler', 'route'):
+                run.evaluations += 1
+                try:
+                    if how == 'constructor':
+                        Application([('/', lambda: Response('x'))], resources=res, error_handler=H())
+                    elif how == 'set_error_handler':
+                        Application([('/', lambda: Response('x'))], resources=res).set_error_handler(H())
+                    else:
+                        # (a route-level error renderer is checked against the ROUTE's own resources, when the Route is created)
+                        Application([Route('/', lambda: Response('x'), render_error=env['render_error_fn'], resources=res)])
+                    outcome = 'ok'
+                except NameError:
+                    outcome = 'NameError'
+                except Exception as ex:  # noqa
+                    outcome = type(ex).__name__
+                want = 'ok' if ok else 'NameError'
+                if outcome != want:
+                    run.violation('error-renderer-name:%s:%s->%s:%s' % (nm if nm in ('context', 'next') else 'other', want, outcome, how),
+                                  'render_error taking %r with application resources %r (%s): %s, the spec says %s'
+                                  % (nm, sorted(res), how, outcome, want),
+                                  {'leg': 'L2-err', 'rec': rec, 'name': nm, 'how': how, 'outcome': outcome})
+                else:
+                    run.traces += 1
+                    run.nontrivial.add('errname:%s:%s:%s' % (key, nm, how))
+
+
 def replay(run, path):
     import inject_worker
     with open(path) as f:
         rp = json.load(f)
     c = rp['case']
+    if c.get('leg') == 'L2-err':
+        print('re-run `bin/check C04 quick` (error renderer names leg): %r' % ({k: c[k] for k in ('name', 'how', 'outcome')},))
+        return 1
     viol, info = inject_worker.check_one(c['rec'], c['seed'], c['opts'])
     print(info)
     for sig, what, _d in viol:
